@@ -95,6 +95,7 @@ def run_case(ctx, iso3, options, title):
     ctx.sample(dict(iso3=iso3, options={k: options.get(k) for k in ("shutoff", "scenario", "crop_disruption", "NMONTHS",
                                                                     "MINIMUM_PERCENT_FED_BEFORE_NONHUMAN_CONSUMPTION_ALLOWED")},
                     T=T, no_feed=pf1, final=pf3, max_nonhuman_pct=float(np.max(nonhuman_pct))), limit=4)
+    return pf1
 
 
 def strategy():
@@ -106,9 +107,17 @@ def strategy():
 def shard(ctx):
     thorough = ctx.tier == "thorough"
 
+    deltas = [0.05, -0.05, 1.0, -1.0, 0.0]
+
     def body(case):
         iso3, options = case
-        run_case(ctx, iso3, options, "c03_%d_%d" % (ctx.shard, ctx.evaluations))
+        pf1 = run_case(ctx, iso3, options, "c03_%d_%d" % (ctx.shard, ctx.evaluations))
+        # every third run is repeated with the threshold put right next to what the no-feed round achieved: min(no-feed, T) changes sides
+        if pf1 is not None and 0.2 < pf1 < 99.8 and ctx.evaluations % 3 == 0:
+            T2 = round(min(100.0, max(0.0, pf1 + deltas[(ctx.evaluations // 3) % len(deltas)])), 4)
+            ctx.count()
+            ctx.event("threshold_next_to_no_feed_result")
+            run_case(ctx, iso3, dict(options, MINIMUM_PERCENT_FED_BEFORE_NONHUMAN_CONSUMPTION_ALLOWED=T2), "c03b_%d_%d" % (ctx.shard, ctx.evaluations))
     drive(ctx, strategy(), body, 100 if thorough else 8, shrink=False, tag="runs")
     # the extremes of the input table are always run (absolute thresholds and tolerances bite at the smallest rows), two thresholds
     model.run_fixed(ctx, model.extreme_cases(thresholds=(100.0, 2.5)), lambda iso, o, k: (ctx.count(), run_case(ctx, iso, o, "c03x_%s" % iso)))
